@@ -206,6 +206,18 @@ Feeds ==
   \*   (Documentable.definingMod, epydoc2stan._get_docformat, fix 01dfc09) - plaintext, like doc.plaintext
   \cup { Feed("reexport.plaintext", S(z, "text", FALSE), "docutils") : z \in SummaryZones }
   \cup { Feed("reexport.plaintext", S("docstring", "text", FALSE), "stan") }
+  \* a function with a PLAINTEXT docstring in a `__docformat__ = "plaintext"` module that also holds a docstring-less
+  \*   class overriding a method whose docstring is inherited from a restructuredtext module (parsed with the format of
+  \*   the module it is WRITTEN in, epydoc2stan.parse_docstring: _get_docformat(source)), class before / after the
+  \*   function: the function's docstring is plaintext either way, like doc.plaintext
+  \cup { Feed("inherit.plaintext." \o o, S(z, "text", FALSE), "docutils") : o \in {"before", "after"}, z \in {"alldocs", "childtable"} }
+  \cup { Feed("inherit.plaintext." \o o, S("docstring", "text", FALSE), "stan") : o \in {"before", "after"} }
+  \* an epytext section heading that is not pure ASCII: the heading text is a title node (docutils route, also in the
+  \*   table of contents); the section id is a slug of its ASCII letters and digits only (ParsedEpytextDocstring._slugify)
+  \cup { Feed("heading.epytext", S(z, "text", FALSE), "docutils") : z \in {"docstring", "sidebar"} }
+  \* interpreted text `payload` of a clean reST docstring parsed after docstrings that declare a raw-based default
+  \*   role (RoleHistory.tla: every docstring starts under the standard default role): a cross reference label
+  \cup { Feed("rolehist", S(z, "text", FALSE), "xrefrst") : z \in {"alldocs", "childtable", "docstring"} }
   \* text-mode content of inline math in a reST docstring
   \cup { Feed("mathtext", S("docstring", "text", FALSE), "mathtext") }
   \* options                                                              (pages/__init__.py:182-186)
@@ -224,7 +236,7 @@ FirstParse(r) == CHOOSE i \in 1..Len(r) : IsParse(r[i]) /\ \A j \in 1..(i - 1) :
 HasParse(r) == \E i \in 1..Len(r) : IsParse(r[i])
 Cut(r) == SubSeq(r, 1, FirstParse(r) - 1) \o <<"ParseXmlFails">>
 \* which fallback the caller of the failing html2stan has
-Elided(f) == f.zone \in SummaryZones \cup {"signature"}      \* format_summary_fallback, format_signature
+Elided(f) == f.zone \in SummaryZones \cup {"signature", "sidebar"}   \* format_summary_fallback, format_signature, no toc
              \/ (f.ctx \in {"url", "attr"} /\ f.zone # "docstring")   \* links, images are gone with the parsed summary
              \/ f.kind = "deprecated"                       \* objectExtras: fallback is BROKEN (pages/__init__.py:334)
 RouteSeq(f, cls) ==
